@@ -104,6 +104,10 @@ _add(_c("lsn_orth_weak", "LSN", [2, 2], [3, 4, 3], 1, "lsn", dict(orthogonal=Tru
 _add(_c("cdn_orth_weak", "CDN", [2, 2], [3, 3, 3, 3, 3, 3], 1, "cdn", dict(orthogonal=True, xpoint_refine_atol=1e-14, **DN), fpol="quad", psi_scale=0.01))
 C04_EXTRA = ["lsn_orth_weak", "cdn_orth_weak"]
 
+# ---- a disconnected double null with a wide inter-separatrix segment (three cells): its second private-flux segment is where psi0 sits at
+# the far end of the radial list (seed C04_reverse_without_unreverse)
+_add(_c("ldn_orth_wide", "LDN", [2, 3, 2], [3, 3, 3, 3, 3, 3], 1, "ldn", dict(orthogonal=True, **DN), fpol="quad"))
+
 # ---- tilted X-point: region joins oblique to the R / Z axes (seed C01_corner_row_mixed is second order on the symmetric families)
 _add(_c("lsn_tilt_orth", "LSN", [2, 2], [3, 4, 3], 1, "lsn_tilt", dict(orthogonal=True), fpol="quad", pressure="quad"))
 _add(_c("lsn_tilt_nonorth", "LSN", [2, 2], [3, 4, 3], 1, "lsn_tilt", dict(orthogonal=False), fpol="quad"))
@@ -161,7 +165,7 @@ _add(_c("lsn_orth_n50", "LSN", [2, 2], [3, 4, 3], 1, "lsn", dict(orthogonal=True
 _add(_c("lsn_orth_n200", "LSN", [2, 2], [3, 4, 3], 1, "lsn", dict(orthogonal=True, finecontour_Nfine=200), fpol="quad", pressure="quad", wall="slanted"))
 
 EXTENDED_CAMPAIGN = CORE_CAMPAIGN + ["usn_nonorth", "cdn_nonorth", "ldn_nonorth", "lsn_orth_dct", "lsn_orth_g0", "lsn_orth_lop",
-                                     "cdn_orth_uo", "ldn_orth_uo", "core_nonorth", "lim_orth_g2", "lsn_orth_wide", "lsn_orth_n50", "lsn_orth_n200", "lsn_orth_weak", "xpt_nonorth", "lsn_tilt_nonorth"]
+                                     "cdn_orth_uo", "ldn_orth_uo", "core_nonorth", "lim_orth_g2", "lsn_orth_wide", "lsn_orth_n50", "lsn_orth_n200", "lsn_orth_weak", "xpt_nonorth", "lsn_tilt_nonorth", "ldn_orth_wide"]
 
 
 def campaign(tier):
